@@ -1,5 +1,6 @@
 import Proofs.NewInst
 import Proofs.NewShape
+import Proofs.NewShapeMore
 
 /-!
   C19 — New instances get typed defaults and fresh non-null identifiers.
@@ -235,6 +236,63 @@ example : (iGRun (fun cur => cur + intIncrement) [.saveCurrent, .returnSaved, .d
     (iGRun (fun cur => cur + intIncrement) [.returnSaved, .saveCurrent, .drawCurrent] 4).ret = none ∧
     (iGRun (fun cur => cur + intIncrement) [.drawCurrent, .returnCurrent] 4).ret = some 5 ∧
     (iGRun (fun cur => cur + intIncrement) [] intStart).current ≠ IntGen.init.current := by decide
+
+/-- the GENERIC generator of the model (`IdGen`: any `readfunc`, seen as the stream of the values it returns — the
+    integer and the uuid generator alike): position `pos` stands for "`pos + 1` calls of `readfunc` made,
+    `_current = stream pos`"; `__init__` makes call 0, `peek` returns `_current` and calls nothing, `next` returns the
+    OLD `_current` and makes exactly one call — each the statement list read from the source, run on registers that
+    count the calls -/
+theorem id_generator_as_in_source (g : IdGen) (c0 : Int) :
+    (iSRun g.stream genInit 0 c0).current = IdGen.peek { g with pos := 0 } ∧
+    (iSRun g.stream genInit 0 c0).calls = 1 ∧
+    (iSRun g.stream genPeek (g.pos + 1) g.peek).ret = some g.peek ∧
+    (iSRun g.stream genPeek (g.pos + 1) g.peek).current = g.peek ∧
+    (iSRun g.stream genPeek (g.pos + 1) g.peek).calls = g.pos + 1 ∧
+    (iSRun g.stream genNext (g.pos + 1) g.peek).ret = some g.next.1 ∧
+    (iSRun g.stream genNext (g.pos + 1) g.peek).current = g.next.2.peek ∧
+    (iSRun g.stream genNext (g.pos + 1) g.peek).calls = g.next.2.pos + 1 ∧
+    g.next.2.stream = g.stream :=
+  idGen_eq g c0
+
+/-- ANY interleaving of `peek` and `next`, on the integer generator and on the generic one: the values the model hands
+    out (every call returns a value) and the generator it ends in are those of the interpreted method bodies, call
+    after call -/
+theorem generator_runs_as_in_source (ops : List GOp) (g : IntGen) (stream : Nat → Int) (pos : Nat) :
+    (IntGen.run ops g).1.map some = (iGOps (fun cur => cur + intIncrement) genPeek genNext ops g.current).1 ∧
+    (IntGen.run ops g).2.current = (iGOps (fun cur => cur + intIncrement) genPeek genNext ops g.current).2 ∧
+    (IdGen.run ops ⟨stream, pos⟩).1.map some = (iSOps stream genPeek genNext ops pos).1 ∧
+    (IdGen.run ops ⟨stream, pos⟩).2.pos = (iSOps stream genPeek genNext ops pos).2 ∧
+    (IdGen.run ops ⟨stream, pos⟩).2.stream = stream :=
+  ⟨(intGen_run_eq ops g).1, (intGen_run_eq ops g).2, (idGen_run_eq stream ops pos).1, (idGen_run_eq stream ops pos).2.1,
+   (idGen_run_eq stream ops pos).2.2⟩
+
+/-- SEQUENCES of constructor calls on one metamodel (`newMany`, the object of `ids_fresh`) and histories of creations
+    interleaved with the user's own `next()` / `peek()` (`runHist`): every call runs the interpreted loops of
+    `MetaClass.new` at the position the previous one left, the user's calls run the interpreted generator methods.
+    Hypothesis as for a single call (`new_loops_as_in_source`): the classes' declared names are distinct after case
+    folding and their referential names are declared (`WF`; discharged for the example class below) -/
+theorem new_sequences_as_in_source (stream : Nat → Int) (calls : List Call) (h : List HOp) (pos : Nat)
+    (hc : ∀ call ∈ calls, WF call.cls) (hh : ∀ c, HOp.create c ∈ h → WF c.cls) :
+    newMany stream calls pos = iNewMany newLoops stream calls pos ∧
+    runHist stream h pos = iRunHist newLoops genPeek genNext stream h pos :=
+  ⟨newMany_eq stream calls pos hc, runHist_eq stream h pos hh⟩
+
+/-! non-vacuity: the hypotheses hold for the two example calls; the interpreted sequence hands out the ids 1, 2 and 4
+    (the explicit 77 consumed 3), a user `next()` in between moves them on; a `next` that returned before drawing
+    would hand every instance after it the value the user already got -/
+example : ∀ call ∈ [call1, call2], WF call.cls := by
+  intro c hc
+  simp only [List.mem_cons, List.not_mem_nil, or_false] at hc
+  rcases hc with rfl | rfl <;> (unfold WF; decide)
+example : allDefaultedIds [call1, call2] (iNewMany newLoops intStream [call1, call2] 0).1 =
+      [some (.int 1), some (.int 2), some (.int 4)] ∧
+    histDefaultedIds (iRunHist newLoops genPeek genNext intStream [.create call1, .next, .peek, .create call2] 0).1 =
+      [some (.int 1), some (.int 2), some (.int 5)] ∧
+    histDefaultedIds (iRunHist newLoops genPeek [.saveCurrent, .returnSaved, .drawCurrent] intStream
+      [.create call1, .next, .peek, .create call2] 0).1 = [some (.int 1), some (.int 2), some (.int 4)] ∧
+    (iGOps (fun cur => cur + intIncrement) genPeek genNext [.peek, .next, .peek, .peek, .next, .next] 1).1 =
+      [some 1, some 1, some 2, some 2, some 2, some 3] ∧
+    (iSOps (linStream 10 5) genPeek genNext [.next, .peek, .next] 0) = ([some 10, some 15, some 15], 2) := by decide
 
 end PyxProps.C19
 
